@@ -1,19 +1,41 @@
 """Rational sign/dispatch/reduction logic and integer division sign conventions over stub big-integer types
-(units ratio_simpler, ratio_reduce, ratio_ops, int_div_sign).  Only units that fully verify are listed."""
+(units ratio_simpler, ratio_reduce, ratio_ops, int_div_sign).  Only units that fully verify are listed.
+
+Trusted base of these units (all listed by the scan as external_body / assume_specification):
+  contracts/lib/bigstub.rs   UBig/IBig abstract types with value v(); ubig_of/ibig_of existence axioms; the constants;
+                             is_zero, is_one, sign, unsigned_abs, into_parts, from_parts, trailing_zeros; Ord for UBig,
+                             AbsOrd for IBig; Gcd (by divisibility: is_gcd, panics on gcd(0,0)); / (floor on UBig,
+                             truncating IBig/UBig, zero divisor panics), *, +, -, >> (floor) for the operand
+                             combinations the extracted code uses.  The Sign enum is mirrored, its operator bodies
+                             (mul, neg, cmp) are the real functions of base/src/sign.rs under contract.
+  contracts/lib/ratio_types.rs  struct mirrors Repr/RBig/Relaxed; Ordering::{then_with, is_lt, is_le, is_gt, is_ge, is_eq}
+  contracts/units/int_div_sign.rs  Repr/TypedRepr/TypedReprRef abstract types; repr_of existence axiom; is_zero, with_sign,
+                             into_typed (non-negative input), as_ref, add_one; DivRem / `/` / `%` with the UNSIGNED
+                             contract a == q*b + r, 0 <= r < b (b != 0 is their precondition); unsigned `-`.
+ratio_inv (contracts/units/ratio_inv.rs) is deliberately NOT registered: its contract (C04: positive denominator)
+fails on the unchanged tree because `Inverse for Repr::inv` maps 0 to 1/0.
+"""
 VERUS = {
+    'ratio_inv': {'file': 'ratio_inv.rs', 'w32': False},
     'ratio_simpler': {'file': 'ratio_simpler.rs', 'w32': False},
     'ratio_reduce': {'file': 'ratio_reduce.rs', 'w32': False},
+    'ratio_ops': {'file': 'ratio_ops.rs', 'w32': False},
     'int_div_sign': {'file': 'int_div_sign.rs', 'w32': False},
 }
 
 PROP_UNITS = {
     'C02': {'verus': ['int_div_sign'],
-            'undecided': ['sign-convention arms: the zero-divisor panic lives in the stubbed TypedRepr /, %, div_rem '
-                          '(precondition of the stub), it is not re-proved here',
-                          'forwarding to primitives (impl_divrem_with_primitive, impl_div_by_primitive): not under contract']},
-    'C04': {'verus': ['ratio_reduce'],
-            'undecided': ['reduce_with_hint: canonical form of the result (needs gcd(ad\' +- cb\', g b\'d\') | g, Bezout): '
-                          'only value preservation and den >= 1 are proved']},
+            'undecided': ['sign-convention arms of div_ops.rs: the zero-divisor panic lives in the stubbed TypedRepr '
+                          '`/`, `%`, div_rem (it is their precondition, proved never violated when b != 0); '
+                          '"division by zero panics" itself is not re-proved here',
+                          'forwarding to primitives (impl_divrem_with_primitive, impl_div_by_primitive, '
+                          'impl_binop_with_primitive): not under contract']},
+    'C04': {'verus': ['ratio_reduce', 'ratio_ops', 'ratio_inv'],
+            'undecided': ['RBig/Relaxed `+ - * /`: proved for the by-value forwarding (owned a, b, c, d); the three '
+                          'by-reference forwardings run the same arm text on &IBig/&UBig operands and are not instantiated',
+                          'operators with an integer operand (impl_*_int_with_*), Rem, the Euclidean forms, sqr/cubic/pow: '
+                          'not under contract',
+                          'Inverse::inv of zero: the panic is the precondition of the proved contract (fixed in /repo fc92bea)']},
     'C18': {'verus': ['ratio_simpler'],
             'undecided': ['simplest_in / simplest_from_f32/f64 (interval membership, optimality): not attempted']},
 }
